@@ -27,7 +27,9 @@ def leaf():
     lits = st.tuples(lit, st.booleans()).map(lambda t: ['lit', t[0], t[1]])
     cls = st.sampled_from([['cls', ['named', 'AnyLetter']], ['cls', ['from', [['c', '('], ['c', ')']]]],
                            ['cls', ['named', 'AnyDigit']], ['cls', ['from', [['c', 'a']]]]])
-    return st.one_of(lits, lits, lits, cls, st.just(['empty', 0]))
+    # classes whose text holds unbalanced parentheses / brackets / '|' next to a raw newline or other whitespace: what the
+    # library's own text-based group detection has to see through
+    return st.one_of(lits, lits, lits, cls, dsl.bracket_heavy_leaf(['meta']), st.just(['empty', 0]))
 
 
 def conversions(tree):
